@@ -167,6 +167,7 @@ func main() {
 	i.harnessPkgPath = main.Pkg.Path()
 	i.registerModels(main.Pkg.Path())
 	i.registerTimeModels()
+	i.registerReflectModels()
 	i.registerExtraModels()
 
 	// packages whose init runs on every path: the package under test and its
